@@ -139,27 +139,35 @@ Proof.
   cbn [set_client en_client]. apply LwwProofs.assoc_get_set_other. congruence.
 Qed.
 
-(* the payload size field is one SIGNED byte: 128..255 can never equal a length *)
-
-(* the payload size field is one SIGNED byte: 128..255 can never equal a length *)
-Theorem nested_payload_128_refused w id sl u payload :
-  (128 <= length payload < 256)%nat -> length u = 3%nat -> id < 2 ^ 32 ->
-  step_class St w NestedProperty (le_encode 4 id ++ [sl] ++ [n2b (N.of_nat (length payload))] ++ u ++ payload) = (w, Some EAssert).
+(* packet level: the payload size field is one UNSIGNED byte (after the repair recorded as fixed: C06-a); every nested packet whose payload
+   is 0..255 bytes passes the size check and is handed to nested_apply with exactly that payload *)
+Theorem nested_packet_reaches_apply w id sl u payload :
+  (length payload < 256)%nat -> length u = 3%nat -> id < 2 ^ 32 ->
+  step_class St w NestedProperty (le_encode 4 id ++ [sl] ++ [n2b (N.of_nat (length payload))] ++ u ++ payload) =
+  atomic w (e <- lookup_entity w (Z.of_N id) ;; m <- model_of St (en_type e) ;;
+            '(e', cs) <- nested_apply St e m (Z.eqb (to_signed 1 (b2n sl)) 1) payload ;; Ok (log (put w e') cs)).
 Proof.
   intros Hl Hu Hid. cbn [step_class].
   rewrite (get_u_app 4) by (change (256 ^ N.of_nat 4) with (2 ^ 32); exact Hid). cbn [bind app].
   unfold get_s at 1. unfold need. cbn [split_exact bind le_decode].
-  unfold get_s at 1. unfold need. cbn [split_exact bind le_decode].
+  rewrite get_u1_cons. cbn [bind].
   rewrite read_upto_app by exact Hu. cbn [snd].
-  rewrite N.mul_0_r, N.add_0_r. rewrite b2n_n2b by lia.
-  assert (E : (Z.of_nat (length payload) =? to_signed 1 (N.of_nat (length payload)))%Z = false).
-  { apply Z.eqb_neq. unfold to_signed.
-    destruct (N.of_nat (length payload) <? 2 ^ (8 * N.of_nat 1 - 1)) eqn:E.
-    - apply N.ltb_lt in E. change (2 ^ (8 * N.of_nat 1 - 1)) with 128 in E. lia.
-    - change (2 ^ (8 * Z.of_nat 1))%Z with 256%Z. lia. }
-  rewrite E. reflexivity.
+  rewrite N.mul_0_r, N.add_0_r. rewrite b2n_n2b by lia. rewrite N.eqb_refl. reflexivity.
+Qed.
+(* a size byte that differs from the real payload length is refused *)
+Theorem nested_packet_size_mismatch w id sl sz u payload :
+  length u = 3%nat -> id < 2 ^ 32 -> b2n sz <> N.of_nat (length payload) ->
+  step_class St w NestedProperty (le_encode 4 id ++ [sl] ++ [sz] ++ u ++ payload) = (w, Some EAssert).
+Proof.
+  intros Hu Hid Hne. cbn [step_class].
+  rewrite (get_u_app 4) by (change (256 ^ N.of_nat 4) with (2 ^ 32); exact Hid). cbn [bind app].
+  unfold get_s at 1. unfold need. cbn [split_exact bind le_decode].
+  rewrite get_u1_cons. cbn [bind].
+  rewrite read_upto_app by exact Hu. cbn [snd].
+  destruct (N.eqb (N.of_nat (length payload)) (b2n sz)) eqn:E; [apply N.eqb_eq in E; congruence | reflexivity].
 Qed.
 End Apply.
 Print Assumptions walk_encode_path.
-Print Assumptions nested_payload_128_refused.
+Print Assumptions nested_packet_reaches_apply.
+Print Assumptions nested_packet_size_mismatch.
 Print Assumptions nested_apply_other_props.
